@@ -15,7 +15,7 @@ RULE = (
     "SUCCESS, FAILURE BET_TAKEN_OR_LAPSED, FAILURE other, TIMEOUT; update: SUCCESS, FAILURE, TIMEOUT; replace: SUCCESS, "
     "FAILURE BET_TAKEN_OR_LAPSED, FAILURE other, TIMEOUT, cancelled-but-placement-failed) x subset of orders completed "
     "between request and response (order-stream update delivered while the call is in flight, or before the call "
-    "starts) x cancel reports reversed / one missing x transport fault on attempts 1..4 (connection error, HTTP 500, "
+    "starts) or partly matched at the exchange with the stream update still outstanding x cancel reports reversed / one missing x transport fault on attempts 1..4 (connection error, HTTP 500, "
     "garbage body, JSON-RPC error, error after the exchange applied the request). SIMULATED (stepped "
     "FlumineSimulation): kind x size 1-3 x per-order fate between request and execution (none / fully matched / lapsed "
     "on suspension / voided by runner removal) x market OPEN or SUSPENDED at execution. Both tiers enumerate the whole "
@@ -52,6 +52,12 @@ def live_combos(tier):
                                     continue
                                 out.append({"world": "live", "kind": kind, "n": n, "outcomes": list(oc), "done": list(done), "when": when,
                                             "reports": rep, "transport": list(tr) if tr else None, "async": False})
+                                # stream lag: some orders are partly matched at the exchange just before the call and the
+                                # stream update has not been seen yet when the response is handled
+                                if kind != "place" and not done and rep == "normal" and n <= 2 and (tr is None or tr[0] == 1):
+                                    for part in [s_ for r_ in range(1, n + 1) for s_ in itertools.combinations(range(n), r_)]:
+                                        out.append({"world": "live", "kind": kind, "n": n, "outcomes": list(oc), "done": [], "when": "in-call",
+                                                    "reports": rep, "transport": list(tr) if tr else None, "async": False, "partial": list(part)})
     # async placements: PENDING reports, bet ids arrive through the stream
     for n in (1, 2):
         for tr in (None, (1, "connection")):
@@ -134,6 +140,8 @@ def _run_live(c, lab):
 
     if c["done"] and c["when"] == "before-call":
         complete_some(lab)
+    for i in c.get("partial", []):
+        ex.fill(orders[i].bet_id, 4.0)  # not delivered through the stream until the end
     # plan of calls
     tr = c["transport"]
     plans = []
@@ -332,7 +340,7 @@ def run_combo(c):
 
 def nontrivial(c):
     if c["world"] == "live":
-        return bool(c["transport"] or c["done"] or c["reports"] != "normal" or any(o != "SUCCESS" for o in c["outcomes"]) or c.get("async"))
+        return bool(c["transport"] or c["done"] or c.get("partial") or c["reports"] != "normal" or any(o != "SUCCESS" for o in c["outcomes"]) or c.get("async"))
     return any(f != "none" for f in c["fates"]) or c["exec_status"] != "OPEN"
 
 
